@@ -12,7 +12,6 @@ from props import _slice_common as sc
 PROPERTY = "C10"
 LEAN_MODULE = "CrCube.Props.C10"
 THEOREMS = [
-    "CrCube.C10.specCount_swap",
     "CrCube.C10.counts_transpose",
     "CrCube.C10.rowBases_transpose",
     "CrCube.C10.columnBases_transpose",
